@@ -83,7 +83,9 @@ MULTILINES = [b"text:\nhello\n.", b"text:\n.", b"text: \nA\nB\n.",
               b"text:# c\nX\n.", b"text:\n..stuffed\n.", b"text:\n...\n.",
               b"text:\n\nblank above\n.", b"text:\n\xc3\xa9\n.",
               b'text:\n"quoted" [x] ; }\n.', b"text:\nif true { keep; }\n.",
-              b"text:\n.x\n.", b"text:\ncost $5\n.", b"text:\r\nA\r\n..B\r\n."]
+              b"text:\n.x\n.", b"text:\ncost $5\n.", b"text:\r\nA\r\n..B\r\n.",
+              # the "text:" line carries a hash comment / trailing blanks, with or without a body
+              b"text:# c\n.", b"text: \t# c\r\n.", b"text:  \n.", b"text:#\n\n."]
 
 
 class ValueGen:
@@ -466,7 +468,26 @@ def meta_rewrites(toks, rng):
         com += t
     com += b"\n# trailing" if not (toks and toks[-1].startswith(b"text:")) else b"\n#t\n"
     out.append(("comments", bytes(com)))
+    # comment spellings a hand-written comment pattern trips over: runs of stars before the
+    # closing slash, slashes and stars inside, "//", a hash inside brackets and the reverse
+    com = bytearray()
+    for i, t in enumerate(toks):
+        if i:
+            if toks[i - 1].startswith(b"text:"):
+                com += b"\n"
+            com += rng.choice(COMMENTS)
+        com += t
+    com += b"\n" + rng.choice(COMMENTS) if not (toks and toks[-1].startswith(b"text:")) \
+        else b"\n" + rng.choice(COMMENTS) + b"\n"
+    out.append(("comment-spellings", bytes(com)))
     return out
+
+
+COMMENTS = [b" /** doc **/ ", b"/***/", b" /* a **/ ", b"/****/ ", b" /*****/ ",
+            b" /* * / */ ", b"/*/ x */ ", b" /* // */ ", b" /* # not a hash comment */ ",
+            b" # /* not a bracket comment\n", b" /* \r\n ** \r\n **/ ", b" /*\"*/ ",
+            b" /*;{}[]()*/ ", b" #\n", b" #\r\n", b" /* text:\n.\n */ ", b" /**//**/ ",
+            b" # \xc3\xa9\xe2\x82\xac *\\/\n", b" /* \xc3\xa9 **/ ", b"/* */ /* **/ "]
 
 
 # ---------------------------------------------------------------------------
@@ -737,6 +758,15 @@ def long_cases(rng, quick=True):
         yield ("hash-comment", n, [b"#" + b"c" * n + b"\nkeep", b";"], [])
         yield ("bracket-comment", n, [b"/*" + b"c" * n + b"*/", b"keep", b";"], [])
         yield ("utf8-string", n, [b"redirect", b'"' + "é".encode() * (n // 2) + b'"', b";"], [])
+    # two multi-line literals in one script, every ordered pair of spellings, code between
+    for m1 in MULTILINES:
+        for m2 in MULTILINES:
+            yield ("mls-pair", 2, [b"require", b"[", b'"reject"', b",", b'"fileinto"', b"]", b";",
+                                   b"reject", m1, b";", b"if", b"true", b"{", b"fileinto",
+                                   b'"between"', b";", b"}", b"reject", m2, b";"],
+                   ["reject", "fileinto"])
+        yield ("mls-pair", 2, [b"if", b"header", b":is", m1, rng.choice(MULTILINES), b"{",
+                               b"keep", b";", b"}", b"stop", b";"], [])
     for n in DIGIT_BOUNDS:
         for d in (b"1" * n, b"0" * n, b"9" * n):
             for q in (b"", b"K", b"g"):
